@@ -19,10 +19,29 @@ RULE = ("(a) exact regime: 1-4-d meshes whose cells all have different dyadic si
         "mean(list) for every ordered subset of directions (sampled in 4-d), a direction-by-direction chain of means over a random proper "
         "subset (2^-40: one rounding per step), abs(field) integrals, Mesh.sel(d) for every d: values, result "
         "mesh (corners, dims, units, n, bc, subregions), labels, mapping, unit and validity must EQUAL the rational "
-        "model (means: equal to the correctly rounded quotient); (b) tolerance regime: nm..km scales, arbitrary "
-        "binary64 data, 2^-40 relative bound; (c) malformed directions (unknown, duplicate, non-string, cumulative "
-        "without direction, direction of a 1-d mesh); (d) histories: ONE mesh object (one field, or two fields sharing it) "
-        "evaluated, then transformed IN PLACE 2-4 (thorough 2-6) times - mesh.scale / mesh.region.scale with scalar and "
+        "model (means: equal to the correctly rounded quotient); a fifth of these meshes sits 2^10..2^40 away from the origin and "
+        "the moved copy of the translation check is up to 2^40 away (corners stay exactly representable); (b) tolerance regime: "
+        "pm..1000 km scales, meshes up to 1e6 edge lengths away from the origin, arbitrary binary64 data of magnitude 1e-15..1e15, "
+        "2^-40 relative bound; (c) malformed directions (unknown, empty, near misses of a valid name - trailing/leading blank, other "
+        "case -, duplicate, non-string numbers / booleans / dicts, lists holding a non-name or another list, cumulative "
+        "without direction, direction of a 1-d mesh), for integrate, cumulative integrate and mean alike; "
+        "(f) EVERY KIND OF DATA a field can hold - int8/16/32/64, uint8/16/32/64, bool, float16/32/64, longdouble, "
+        "complex64/128, clongdouble, round robin so each run sees all 16 - obtained through Field(value=array, dtype=...), the array "
+        "setter of a typed zero field, a callable with dtype, and an array without dtype (the constructor's choice), in three "
+        "magnitude classes (one-digit integers; the WHOLE range of the integer dtype incl. its extremes, up to 2^50 for 64 bits and "
+        "integers up to the mantissa of the floating dtypes; arbitrary mantissas over 1e-12..1e6), on the meshes of (a): the same "
+        "requests, the same oracle (incl. linearity against a binary64 combination, per-component action, translation) and the same "
+        "model comparison, always about the values the field ACTUALLY holds. Demand: exact equality (means: the correctly rounded "
+        "binary64 quotient for integer / boolean / binary64 data, one rounding of the data's precision for "
+        "float16/float32/longdouble, two for complex quotients) whenever every partial sum, half value and product with a cell "
+        "measure is representable in the arithmetic numpy uses for that dtype (64-bit integers / binary64 for integer and boolean "
+        "data: an integer field's mean is NOT an integer, narrow integers must not wrap); otherwise the a-priori bound of summing "
+        "in any order in the data's precision, (cells + 8) ulps of sum|values| x measure, never below 2^-40. Complex data: the "
+        "rational model is asked for the real and for the imaginary part (all forms are linear), both must agree; a real field "
+        "must not give complex results; (g) LONG axes: 1000-2500 (thorough: 8000) cells along one axis of a 1-3-d mesh, data of "
+        "nine dtypes incl. full-range int8/int16/int32 (every accumulator overflows unless widened), all directional / cumulative / "
+        "total integrals and means against oracle and model; (d) histories: ONE mesh object (one field, or two fields sharing it) "
+        "(binary64 data, or - histories without a quarter turn - int8/16/32/64, uint8/32, bool data) evaluated, then transformed IN PLACE 2-4 (thorough 2-6) times - mesh.scale / mesh.region.scale with scalar and "
         "per-axis factors incl. negative and an explicit reference point, mesh.translate / mesh.region.translate, "
         "field.rotate90 with k in {1,3,-1,2} - and after every step mesh.dV, mesh.cell, integrate(), integrate(d), cumulative, "
         "mean(), mean(d), mean(list), a chained integral and Mesh.sel(d) are evaluated again on the SAME objects and must equal "
@@ -37,11 +56,21 @@ RULE = ("(a) exact regime: 1-4-d meshes whose cells all have different dyadic si
         "last-entry relation, mean = integral / extent, linearity, per-component action, translation invariance, "
         "integral of |f| = measure x sum of |values| and >= |integral of f|, refusals. non-trivial = at least 2 cells, non-constant data")
 TRUSTED = ["harness/c06.py, harness/fieldio.py + driver JSON glue",
+           "numpy's conversion of integer / boolean / narrow floating data to binary64 (astype) used to read the field's values exactly",
            "np.sum / np.cumsum / ndarray.mean / np.prod modelled by contract (sum over the named axes, running sum, sum/count)"]
 ASSUMPTIONS = ["exact-regime inputs (small integers, dyadic corners and cells): every binary64 operation on the code path of the "
                "integrals is exact, so equality is demanded; a mean is one correctly rounded division of an exact sum by a count",
-               "theorems are about exact rational arithmetic; float rounding enters only via the tolerance comparator"]
-UNPROVED = ["the success / acceptance theorems (…_ok, fubini_total, fubini_perm, integrate_ok_iff, mean_ok_iff, sel_subregions) take "
+               "theorems are about exact rational arithmetic; float rounding enters only via the tolerance comparator",
+               "data that are not binary64: the values the field holds are sent to the model exactly; what is demanded of the "
+               "result depends on the arithmetic numpy carries out for that dtype (see RULE (f)): equality where every intermediate "
+               "is representable, else the any-order summation bound in that precision - no other threshold is used",
+               "float16 data are kept small (|v| <= 4, a few hundred cells): a binary16 total above 65504 overflows in numpy "
+               "itself, which no property of the library addresses"]
+UNPROVED = ["the model is rational: complex fields are covered through linearity (real and imaginary part separately, each against "
+            "the model), integer / boolean / narrow floating fields through the exact values they hold; that numpy widens the "
+            "accumulator (int8 -> int64, integer mean -> binary64) is NOT a theorem, it is what the correspondence check and the "
+            "oracle observe on every dtype (streams (f), (g))",
+            "the success / acceptance theorems (…_ok, fubini_total, fubini_perm, integrate_ok_iff, mean_ok_iff, sel_subregions) take "
             "subregions that fit the mesh EXACTLY (SubsFit: start a whole number of cells in, a whole number >= 1 of cells long); "
             "subregions the setter accepts only thanks to its 1e-12 / 0.1 % tolerances are outside the theorems (there the model "
             "follows the code by correspondence only, on the clear side of the thresholds)",
@@ -61,7 +90,36 @@ CELLS = [Fraction(1, 4), Fraction(1, 2), Fraction(3, 4), Fraction(1), Fraction(5
 
 
 # ------------------------------------------------------------------ generators
-def gen_mesh(rng, tier, ndim=None, n=None, plain=False):
+N_FIELD = {"quick": 280, "thorough": 2200}
+N_FLOAT = {"quick": 110, "thorough": 900}
+N_DTYPE = {"quick": 160, "thorough": 1500}
+N_LONG = {"quick": 8, "thorough": 30}
+
+# numpy dtypes a field can be created with (Field(..., dtype=...), or taken over from the value array)
+DTYPE_NAMES = ["int8", "int16", "int32", "int64", "uint8", "uint16", "uint32", "uint64", "bool",
+               "float16", "float32", "float64", "longdouble", "complex64", "complex128", "clongdouble"]
+INT_MAX = {"int8": 127, "int16": 32767, "int32": 2 ** 31 - 1, "int64": 2 ** 50,
+           "uint8": 255, "uint16": 65535, "uint32": 2 ** 32 - 1, "uint64": 2 ** 50}
+
+
+def gen_long(rng, tier):
+    ndim = rng.choice([1, 1, 2, 2, 3])
+    n = [rng.choice([1, 1, 2, 3]) for _ in range(ndim)]
+    la = rng.randrange(ndim)
+    n[la] = rng.randint(1000, 2500 if tier == "quick" else 8000)
+    cap = 6000 if tier == "quick" else 16000
+    while int(np.prod(n)) > cap:
+        others = [a for a in range(ndim) if a != la and n[a] > 1]
+        if not others:
+            n[la] = cap
+            break
+        n[max(others, key=lambda a: n[a])] -= 1
+    return dict(kind="long", mesh=gen_mesh(rng, "quick", ndim, n), nvdim=rng.choice([1, 1, 2]), tier=tier,
+                dtype=rng.choice(["float64", "float64", "int8", "int16", "int32", "uint8", "float32", "bool", "complex128"]),
+                mag=rng.choice(["small", "range"]), route="array", sub=rng.getrandbits(32))
+
+
+def gen_mesh(rng, tier, ndim=None, n=None, plain=False, far=False):
     ndim = ndim or rng.choice([1, 2, 2, 3, 3, 3, 4, 4])
     nmax = 6 if tier == "quick" else 10
     cap = 160 if tier == "quick" else 500
@@ -73,6 +131,9 @@ def gen_mesh(rng, tier, ndim=None, n=None, plain=False):
     n = list(n)
     cell = rng.sample(CELLS, ndim)  # all different
     pmin = [Fraction(rng.randint(-40, 40), 2 ** rng.randint(0, 2)) for _ in range(ndim)]
+    if far:
+        # far from the origin (2^10 .. 2^40 x a small integer): corners stay exactly representable
+        pmin = [a + rng.choice([-1, 1]) * rng.randint(1, 7) * 2 ** rng.randint(10, 40) if rng.random() < 0.7 else a for a in pmin]
     pmax = [a + k * c for a, k, c in zip(pmin, n, cell)]
     dims = rng.sample(NAMES, ndim) if rng.random() < 0.5 else None
     units = [rng.choice(UNITS) for _ in range(ndim)] if rng.random() < 0.4 else None
@@ -101,9 +162,10 @@ def gen_float_mesh(rng):
     while int(np.prod(n)) > 120:
         k = rng.randrange(ndim)
         n[k] = max(1, n[k] - 1)
-    scale = 10.0 ** rng.randint(-9, 3)
+    # pm .. 1000 km, the mesh up to 1e6 edge lengths away from the origin
+    scale = 10.0 ** rng.randint(-12, 6)
     edge = [scale * rng.choice([1.0, 1 / 3, 0.7, 2.5, 10.0]) * rng.uniform(0.5, 2) for _ in range(ndim)]
-    off = rng.choice([0.0, 1.0, -1.0, 17.3])
+    off = rng.choice([0.0, 1.0, -1.0, 17.3, 1e3, -1e3, 1e6, -1e6])
     p1 = [off * e + rng.uniform(-1, 1) * e for e in edge]
     p2 = [a + e for a, e in zip(p1, edge)]
     dims = rng.sample(NAMES, ndim) if rng.random() < 0.5 else None
@@ -119,12 +181,26 @@ def cases(rng, tier):
                 continue
             yield dict(kind="field", mesh=gen_mesh(rng, tier, ndim, n), nvdim=rng.choice([1, 2, 3]), tier=tier,
                        sub=rng.getrandbits(32))
-    for _ in range(400 if quick else 2200):
-        yield dict(kind="field", mesh=gen_mesh(rng, tier), nvdim=rng.choice([1, 1, 2, 3, 3, 4]), tier=tier,
-                   sub=rng.getrandbits(32))
-    for _ in range(120 if quick else 900):
+    for _ in range(N_FIELD[tier]):
+        yield dict(kind="field", mesh=gen_mesh(rng, tier, far=rng.random() < 0.2), nvdim=rng.choice([1, 1, 2, 3, 3, 4]), tier=tier,
+                   far_shift=rng.random() < 0.4, sub=rng.getrandbits(32))
+    for _ in range(N_FLOAT[tier]):
+        # data magnitudes 1e-15 .. 1e15 (a per-case decade on top of the per-value 1e-3 .. 1e3)
         yield dict(kind="float", mesh=gen_float_mesh(rng), nvdim=rng.choice([1, 2, 3, 4]), tier=tier,
-                   sub=rng.getrandbits(32))
+                   dexp=rng.choice([0, 0, rng.randint(-12, 12)]), sub=rng.getrandbits(32))
+    # every kind of data a field can hold (the property quantifies over ALL fields): each dtype x each magnitude class
+    # x each way of getting such a field, round robin so that every run sees every dtype
+    k = 0
+    for _ in range(N_DTYPE[tier]):
+        dt = DTYPE_NAMES[k % len(DTYPE_NAMES)]
+        k += 1
+        yield dict(kind="dtype", mesh=gen_mesh(rng, tier, far=rng.random() < 0.15), nvdim=rng.choice([1, 1, 2, 3, 3, 4]), tier=tier,
+                   dtype=dt, mag=rng.choice(["small", "small", "range", "range", "wide"]),
+                   route=rng.choice(["array", "array", "array", "setter", "setter", "nodtype", "callable"]),
+                   far_shift=rng.random() < 0.3, sub=rng.getrandbits(32))
+    # thousands of cells along ONE axis (every accumulation runs long), in every kind of data
+    for _ in range(N_LONG[tier]):
+        yield gen_long(rng, tier)
     for _ in range(60 if quick else 500):
         yield gen_history(rng, tier)
     for _ in range(60 if quick else 300):
@@ -164,8 +240,13 @@ def gen_history(rng, tier):
             a1, a2 = rng.sample(dims, 2)
             steps.append(dict(op="rotate90", ax1=a1, ax2=a2, k=rng.choice([1, 1, 3, -1, 2])))
     nv = rng.choice([1, 1, ndim, 3]) if ndim > 1 else rng.choice([1, 2])
+    # integer / boolean data too (numpy reduces them in 64-bit integers / binary64: the exact regime applies); a quarter
+    # turn multiplies vector components by float sin/cos, which integer data cannot hold: binary64 there
+    dt = "float64"
+    if all(st["op"] != "rotate90" for st in steps) and rng.random() < 0.4:
+        dt = rng.choice(["int8", "int16", "int32", "int64", "uint8", "uint32", "bool"])
     return dict(kind="history", mesh=spec, nvdim=nv, nvdim2=rng.choice([1, 2]), shared=shared, steps=steps, tier=tier,
-                sub=rng.getrandbits(32))
+                dtype=dt, sub=rng.getrandbits(32))
 
 
 # ------------------------------------------------------------------ adapter helpers
@@ -181,13 +262,39 @@ def build_mesh(spec, shift=None):
     return df.Mesh(region=r, n=spec["n"], bc=spec.get("bc", ""), subregions=subs or None)
 
 
-def canon(res):
-    """canonical observable of an API result"""
+def part_of(a, part):
+    """real / imaginary part of an array of any numeric dtype, as binary64 (integers stay integers)"""
+    a = np.asarray(a)
+    if np.iscomplexobj(a):
+        a = a.real if part == "re" else a.imag
+    elif part == "im":
+        a = np.zeros(a.shape)
+    if a.dtype.kind == "f" and a.dtype.itemsize != 8:
+        a = a.astype(np.float64)
+    return a
+
+
+def fjson(f, part="re"):
+    """fieldio.field_json for a field holding any kind of data (one part of complex data)"""
+    if f.array.dtype == np.float64 and part == "re":
+        return fieldio.field_json(f)
+    nv = f.nvdim
+    arr = part_of(f.array, part).reshape(-1, nv)
+    return dict(mesh=fieldio.mesh_json(f.mesh), nvdim=int(nv),
+                data=[Qs(row) for row in arr.tolist()],
+                valid=[bool(v) for v in np.asarray(f.valid).reshape(-1).tolist()],
+                vdims=(list(f.vdims) if f.vdims is not None else None),
+                vmap=[[k, v] for k, v in f.vdim_mapping.items() if v is not None],
+                unit=f.unit)
+
+
+def canon(res, part="re"):
+    """canonical observable of an API result (part: the real or the imaginary part of the values)"""
     if isinstance(res, df.Field):
-        return {"field": fieldio.field_json(res)}
+        return {"field": fjson(res, part)}
     if isinstance(res, df.Mesh):
         return {"mesh": fieldio.mesh_json(res)}
-    a = np.asarray(res)
+    a = part_of(res, part)
     return {"vals": Qs(a.reshape(-1).tolist()), "shape": list(a.shape)}
 
 
@@ -202,8 +309,8 @@ def is_err(x):
     return isinstance(x, tuple) and len(x) == 2 and x[0] == "err"
 
 
-def canon_or_err(x):
-    return {"err": x[1]} if is_err(x) else canon(x)
+def canon_or_err(x, part="re"):
+    return {"err": x[1]} if is_err(x) else canon(x, part)
 
 
 def pydir(d, as_tuple=False):
@@ -265,39 +372,132 @@ def units_of(spec):
     return spec["units"] or ["m"] * len(spec["p1"])
 
 
+class CQ:
+    """exact complex rational (real and imaginary part Fractions): the expected value of a complex field"""
+    __slots__ = ("re", "im")
+
+    def __init__(self, re, im=0):
+        self.re, self.im = Fraction(re), Fraction(im)
+
+    @staticmethod
+    def of(x):
+        return x if isinstance(x, CQ) else CQ(x)
+
+    def __add__(self, o):
+        o = CQ.of(o)
+        return CQ(self.re + o.re, self.im + o.im)
+
+    __radd__ = __add__
+
+    def __sub__(self, o):
+        o = CQ.of(o)
+        return CQ(self.re - o.re, self.im - o.im)
+
+    def __rsub__(self, o):
+        return CQ.of(o) - self
+
+    def __neg__(self):
+        return CQ(-self.re, -self.im)
+
+    def __mul__(self, o):  # by a real rational only (cell measures, counts)
+        return CQ(self.re * Fraction(o), self.im * Fraction(o))
+
+    __rmul__ = __mul__
+
+    def __truediv__(self, o):
+        return CQ(self.re / Fraction(o), self.im / Fraction(o))
+
+    def __abs__(self):  # |re| + |im|: only used as the scale of a tolerance
+        return abs(self.re) + abs(self.im)
+
+    def __eq__(self, o):
+        o = CQ.of(o)
+        return self.re == o.re and self.im == o.im
+
+    def __hash__(self):
+        return hash((self.re, self.im))
+
+    def __str__(self):
+        return f"({self.re})+({self.im})i"
+
+    __repr__ = __str__
+
+
+def to64(a):
+    """any numeric array -> float64 / complex128 (exact for every value the generators produce)"""
+    a = np.asarray(a)
+    if a.dtype == object:
+        return a
+    return a.astype(np.complex128) if np.iscomplexobj(a) else a.astype(np.float64)
+
+
 def obj(a):
-    """float array -> object array of exact Fractions"""
-    flat = [Fraction(float(x)) for x in np.asarray(a, dtype=float).reshape(-1)]
+    """numeric array of any dtype -> object array of exact Fractions (CQ for complex data)"""
+    a = np.asarray(a)
+    if a.dtype == object:
+        return a
+    if np.iscomplexobj(a):
+        flat = [CQ(Fraction(float(z.real)), Fraction(float(z.imag))) for z in a.reshape(-1)]
+    elif a.dtype.kind in "iub":
+        flat = [Fraction(int(x)) for x in a.reshape(-1)]
+    else:
+        flat = [Fraction(float(x)) for x in a.reshape(-1)]
     out = np.empty(len(flat), dtype=object)
     out[:] = flat
     return out.reshape(np.shape(a))
 
 
+def parts(x):
+    """(re, im) of an impl scalar as exact Fractions; None if not finite"""
+    try:
+        if isinstance(x, (complex, np.complexfloating)):
+            return Fraction(float(x.real)), Fraction(float(x.imag))
+        return Fraction(float(x)), Fraction(0)
+    except (ValueError, OverflowError):
+        return None
+
+
+def eparts(y):
+    return (y.re, y.im) if isinstance(y, CQ) else (Fraction(y), Fraction(0))
+
+
+def _pairs(impl, expected):
+    impl = np.asarray(impl)
+    expected = np.asarray(expected, dtype=object)
+    if impl.shape != expected.shape:
+        return None
+    out = []
+    for x, y in zip(impl.reshape(-1), expected.reshape(-1)):
+        px = parts(x)
+        if px is None:
+            return None
+        out.append((px, eparts(y)))
+    return out
+
+
 def eq_exact(impl, expected):
-    """impl float array equals an object array of Fractions entry by entry"""
-    impl = np.asarray(impl, dtype=float)
-    expected = np.asarray(expected, dtype=object)
-    if impl.shape != expected.shape:
-        return False
-    return all(Fraction(float(x)) == y for x, y in zip(impl.reshape(-1), expected.reshape(-1)))
+    """impl array (any dtype) equals an object array of Fractions / CQ entry by entry"""
+    pr = _pairs(impl, expected)
+    return pr is not None and all(px == py for px, py in pr)
 
 
-def eq_rounded(impl, expected):
-    """impl float equals the correctly rounded value of the exact rational"""
-    impl = np.asarray(impl, dtype=float)
-    expected = np.asarray(expected, dtype=object)
-    if impl.shape != expected.shape:
+def eq_rounded(impl, expected, rel_entry=None):
+    """impl equals the correctly rounded (binary64) value of the exact rational; with rel_entry (data held in another
+    precision: the quotient is rounded there): within rel_entry of the exact value, entry by entry"""
+    pr = _pairs(impl, expected)
+    if pr is None:
         return False
-    return all(float(x) == float(Fraction(y)) for x, y in zip(impl.reshape(-1), expected.reshape(-1)))
+    if rel_entry is None:
+        return all(float(a) == float(b) for px, py in pr for a, b in zip(px, py))
+    return all(abs(a - b) <= Fraction(rel_entry) * max(abs(py[0]), abs(py[1])) for px, py in pr for a, b in zip(px, py))
 
 
 def eq_close(impl, expected, scale, rel=2.0 ** -40):
-    impl = np.asarray(impl, dtype=float)
-    expected = np.asarray(expected, dtype=object)
-    if impl.shape != expected.shape:
+    pr = _pairs(impl, expected)
+    if pr is None:
         return False
     bound = Fraction(rel) * Fraction(scale)
-    return all(np.isfinite(x) and abs(Fraction(float(x)) - y) <= bound for x, y in zip(impl.reshape(-1), expected.reshape(-1)))
+    return all(abs(a - b) <= bound for px, py in pr for a, b in zip(px, py))
 
 
 def reduced_mesh_ok(res_mesh, spec, removed, shift=None):
@@ -329,9 +529,17 @@ def ordered_subsets(dims, rng, tier):
     return out
 
 
-def field_oracle(case, f, arr, mesh, rng, fail, exact, light=False):
+def field_oracle(case, f, arr, mesh, rng, fail, exact, light=False, ctx=None):
     """property-level checks on the real code alone.  exact=True: equality, else 2^-40 relative.
-    light=True: the checks 1-5 only (used after every step of a history)."""
+    light=True: the checks 1-5 only (used after every step of a history).
+    ctx (fields whose data are not binary64): rel = relative bound of the tolerance regime (any-order summation in the
+    precision of the data), mean_rel = per-entry bound of a mean in the exact regime when the quotient is rounded in
+    another precision than binary64 (None: correctly rounded binary64 quotient), mk(values, nvdim, mesh) = constructor
+    of a field with the same kind of data, unsigned = data cannot be negative"""
+    ctx = ctx or {}
+    rel = ctx.get("rel", 2.0 ** -40)
+    mean_rel = ctx.get("mean_rel")
+    mk = ctx.get("mk") or (lambda values, nvd, msh: df.Field(msh, nvdim=nvd, value=values))
     spec = case["mesh"]
     lo, hi, cell = frac_geometry(spec)
     dims = dims_of(spec)
@@ -347,10 +555,10 @@ def field_oracle(case, f, arr, mesh, rng, fail, exact, light=False):
     absum = sum(abs(x) for x in A.reshape(-1)) or Fraction(1)
 
     def same(impl, expected, scale):
-        return eq_exact(impl, expected) if exact else eq_close(impl, expected, scale)
+        return eq_exact(impl, expected) if exact else eq_close(impl, expected, scale, rel)
 
     def same_mean(impl, expected, scale):
-        return eq_rounded(impl, expected) if exact else eq_close(impl, expected, scale)
+        return eq_rounded(impl, expected, mean_rel) if exact else eq_close(impl, expected, scale, rel)
 
     space = tuple(range(nd))
     # 0. the cell volume and the cell lengths the mesh reports are those of its current corners and counts
@@ -476,15 +684,17 @@ def field_oracle(case, f, arr, mesh, rng, fail, exact, light=False):
         if is_err(gc) or is_err(gl) or not isinstance(gc, df.Field) or not isinstance(gl, df.Field):
             fail(f"mean chain {s2} / mean({s2}) raised or returned no field: {gc if is_err(gc) else ''} {gl if is_err(gl) else ''}")
             return
-        if gc.mesh != gl.mesh or not eq_close(gc.array, obj(gl.array), absum):
+        # one rounding per step of the chain, in the precision the data are held in
+        chain_rel = max(rel, 2.0 ** -40) if (not exact or mean_rel is None) else max(4 * mean_rel, 2.0 ** -40)
+        if gc.mesh != gl.mesh or not eq_close(gc.array, obj(gl.array), absum, chain_rel):
             fail(f"averaging direction by direction over {s2} differs from mean({s2})")
             return
     if not exact or light:
         return
     # 6. linearity
-    arr2 = fieldio.gen_int_array(rng, arr.shape)
-    f2 = df.Field(mesh, nvdim=nv, value=arr2)
-    comb = df.Field(mesh, nvdim=nv, value=2 * arr - 3 * arr2)
+    arr2 = fieldio.gen_int_array(rng, arr.shape, 0 if ctx.get("unsigned") else -9, 1 if ctx.get("bool") else 9)
+    f2 = mk(arr2, nv, mesh)
+    comb = df.Field(mesh, nvdim=nv, value=2 * arr - 3 * arr2)  # binary64 / complex128: holds the combination exactly
     d = dims[rng.randrange(nd)]
     for label, fn in (("integrate()", lambda h: h.integrate()),
                       (f"integrate('{d}')", lambda h: h.integrate(d)),
@@ -493,13 +703,13 @@ def field_oracle(case, f, arr, mesh, rng, fail, exact, light=False):
         a, b, c = (np.asarray(getattr(fn(h), "array", fn(h))) for h in (f, f2, comb))
         if label == "mean()":
             continue  # means are rounded quotients; linearity is checked on the integrals
-        if not np.array_equal(c, 2 * a - 3 * b):
+        if not eq_exact(c, 2 * obj(a) - 3 * obj(b)):
             fail(f"{label} is not linear: I(2f-3g) != 2I(f)-3I(g)")
             return
     # 7. per component
     if nv > 1:
         c = rng.randrange(nv)
-        fc = df.Field(mesh, nvdim=1, value=arr[..., c:c + 1])
+        fc = mk(arr[..., c:c + 1], 1, mesh)
         for label, fn in (("integrate()", lambda h: h.integrate()),
                           (f"integrate('{d}')", lambda h: h.integrate(d)),
                           (f"integrate('{d}', cumulative=True)", lambda h: h.integrate(d, cumulative=True)),
@@ -511,8 +721,11 @@ def field_oracle(case, f, arr, mesh, rng, fail, exact, light=False):
                 return
     # 8. translation invariance
     shift = [float(Fraction(rng.randint(-64, 64), 4)) for _ in range(nd)]
+    if case.get("far_shift"):
+        # far away: 2^e x a small integer (all corners stay exactly representable: multiples of 2^-5 below 2^45)
+        shift = [float(rng.choice([-1, 1]) * rng.randint(1, 7) * 2 ** rng.randint(10, 40)) if rng.random() < 0.7 else t for t in shift]
     mesh_t = build_mesh(spec, shift)
-    ft = df.Field(mesh_t, nvdim=nv, value=arr)
+    ft = mk(arr, nv, mesh_t)
     for label, fn in (("integrate()", lambda h: h.integrate()),
                       (f"integrate('{d}')", lambda h: h.integrate(d)),
                       (f"integrate('{d}', cumulative=True)", lambda h: h.integrate(d, cumulative=True)),
@@ -524,7 +737,13 @@ def field_oracle(case, f, arr, mesh, rng, fail, exact, light=False):
         if isinstance(rb, df.Field) and "cumulative" not in label and not reduced_mesh_ok(rb.mesh, spec, [dims.index(d)], shift):
             fail(f"{label} on the moved mesh lives on {rb.mesh}")
             return
+    # 9. refusals
+    r = call(lambda: f.integrate(cumulative=True))
+    if not is_err(r):
+        fail("integrate(cumulative=True) without a direction was accepted")
     # 8b. absolute value: integral of |f| = cell measure x sum of |cell values|, and it bounds |integral of f|
+    if ctx.get("complex"):
+        return  # |z| of a complex value is not rational: left to the tolerance-free parts above
     fa = call(lambda: abs(f))
     Ia = call(lambda: fa.integrate())
     if is_err(fa) or is_err(Ia) or not same(Ia, np.abs(A).sum(axis=space) * dV, absum * dV):
@@ -538,10 +757,6 @@ def field_oracle(case, f, arr, mesh, rng, fail, exact, light=False):
     if is_err(Ca) or not isinstance(Ca, df.Field) or not same(Ca.array, (np.cumsum(np.abs(A), axis=ax_a) - np.abs(A) / 2) * cell[ax_a], absum * cell[ax_a]):
         fail(f"abs(field).integrate('{d}', cumulative=True) is not cell x (preceding |values| + half own |value|)")
         return
-    # 9. refusals
-    r = call(lambda: f.integrate(cumulative=True))
-    if not is_err(r):
-        fail("integrate(cumulative=True) without a direction was accepted")
 
 
 # ------------------------------------------------------------------ run on the real code
@@ -551,6 +766,8 @@ def make_field(case, rng):
     nv = case["nvdim"]
     if case["kind"] == "float":
         arr = np.array([rng.uniform(-1, 1) * 10.0 ** rng.randint(-3, 3) for _ in range(int(np.prod(spec["n"])) * nv)]).reshape(*spec["n"], nv)
+        if case.get("dexp"):
+            arr = arr * 10.0 ** case["dexp"]
     else:
         arr = fieldio.gen_int_array(rng, (*spec["n"], nv))
     mask = fieldio.gen_mask(rng, tuple(spec["n"]))
@@ -562,7 +779,125 @@ def make_field(case, rng):
     return mesh, arr, f
 
 
-def requests_for(case, rng, dims, tier):
+def np_dtype(name):
+    return np.dtype(bool) if name == "bool" else np.dtype(getattr(np, name))
+
+
+def gen_values(rng, name, shape, mag):
+    """exact values (binary64 / complex128 array, every entry representable in the dtype `name`) of one magnitude class:
+    small = integers of one digit; range = the whole range of an integer dtype (up to 2^50 for 64 bits), mixed with the
+    extremes and with small values; wide = arbitrary mantissas over 1e-12 .. 1e6 (floating dtypes)"""
+    dt = np_dtype(name)
+    size = int(np.prod(shape))
+
+    def real_part():
+        if dt.kind == "b":
+            return [float(rng.randint(0, 1)) for _ in range(size)]
+        if dt.kind in "iu":
+            lo = 0 if dt.kind == "u" else -9
+            if mag == "small":
+                return [float(rng.randint(lo, 9)) for _ in range(size)]
+            top = INT_MAX[name]
+            bot = 0 if dt.kind == "u" else -top
+            return [float(rng.choice([rng.randint(bot, top), rng.randint(bot, top), rng.choice([bot, top]), rng.randint(lo, 9)]))
+                    for _ in range(size)]
+        if name == "float16":
+            # partial sums of a few hundred cells stay below the 2048 up to which binary16 holds every integer
+            if mag == "small":
+                return [float(rng.randint(-4, 4)) for _ in range(size)]
+            return [rng.randint(-32, 32) / 8.0 for _ in range(size)]
+        if mag == "small":
+            return [float(rng.randint(-9, 9)) for _ in range(size)]
+        if mag == "range":
+            # integers up to the precision of the dtype: exact data, inexact sums in the narrow dtypes
+            top = 2 ** (24 if name in ("float32", "complex64") else 50)
+            return [float(rng.choice([rng.randint(-top, top), rng.randint(-9, 9)])) for _ in range(size)]
+        e = rng.randint(-12, 6)
+        vals = [rng.uniform(-1, 1) * 10.0 ** (e if rng.random() < 0.7 else rng.randint(-12, 6)) for _ in range(size)]
+        if name in ("float32", "complex64"):
+            vals = [float(np.float32(v)) for v in vals]
+        return vals
+
+    re = np.array(real_part(), dtype=np.float64).reshape(shape)
+    if dt.kind == "c":
+        return re + 1j * np.array(real_part(), dtype=np.float64).reshape(shape)
+    return re
+
+
+def precision_of(adt, raw, cell, ncell):
+    """what the ACTUAL dtype of the field's data allows to demand.  B = bits of the arithmetic carried out in that dtype
+    (53: binary64, or integers that numpy accumulates in 64-bit integers / binary64).  exact: every partial sum, half
+    value and product with a cell measure is representable (values k/g, g a power of two, with
+    g x sum|values| x the numerators of the cell lengths below 2^(B-1)); otherwise any-order summation in precision B: (ncell + 8) ulps of sum|values| x measure
+    (8 ulps when at least every partial sum is representable), never below the 2^-40 of the binary64 streams"""
+    if adt.kind in "iub":
+        B, ext = 53, False
+    else:
+        per = adt.itemsize // (2 if adt.kind == "c" else 1)  # bytes of one real number
+        B, ext = {2: 11, 4: 24}.get(per, 53), per > 8  # extended precision is read back through binary64
+    flat = raw.reshape(-1)
+    comps = [flat.real, flat.imag] if np.iscomplexobj(flat) else [flat]
+    fr = [Fraction(float(x)) for c in comps for x in c]
+    g = max([x.denominator for x in fr] + [1])  # every binary value is an integer multiple of 1/g, g a power of two
+    S = sum(abs(x) for x in fr) * g
+    P = 1
+    for c in cell:
+        P *= c.numerator
+    # (the second condition: the binary64 combination 2f - 3g of the linearity check, g of one digit, is exact as well)
+    if 2 * S * P < 2 ** B and 2 * (2 * S + 27 * g * len(fr)) * P < 2 ** 53:
+        exact, rel = True, 2.0 ** -40
+    elif 2 * S < 2 ** B:
+        exact, rel = False, max(8 * 2.0 ** -(B - 1), 2.0 ** -40)
+    else:
+        exact, rel = False, max((ncell + 8) * 2.0 ** -(B - 1), 2.0 ** -40)
+    # a mean is ONE quotient: correctly rounded where numpy divides binary64 by the count; one rounding of the data's
+    # precision elsewhere; complex quotients go through numpy's complex division (reciprocal, then product: two roundings)
+    mean_rel = 2.0 ** -(B - 2) if adt.kind == "c" else None if (B == 53 and not ext) else 2.0 ** -(B - 1)
+    return dict(exact=exact, rel=rel, mean_rel=mean_rel, bits=B)
+
+
+def make_dtype_field(case, rng):
+    """a field holding data of case['dtype'], obtained on the route case['route'].  Everything downstream refers to the
+    data the field ACTUALLY holds (f.array, whatever dtype the constructor settled on)."""
+    spec = case["mesh"]
+    mesh = build_mesh(spec)
+    nv = case["nvdim"]
+    name = case["dtype"]
+    dt = np_dtype(name)
+    mag = case.get("mag", "small")
+    vals = gen_values(rng, name, (*spec["n"], nv), mag)
+    typed = vals.astype(dt)
+    mask = fieldio.gen_mask(rng, tuple(spec["n"]))
+    kw = {}
+    if nv > 1 and rng.random() < 0.5:
+        kw["vdims"] = rng.sample(["p", "q", "r", "s", "k"], nv)
+    kw["unit"] = rng.choice([None, "A/m", "T"])
+    route = case.get("route", "array")
+    if route == "callable" and int(np.prod(spec["n"])) > 40:
+        route = "array"
+    if route == "array":
+        f = df.Field(mesh, nvdim=nv, value=typed, dtype=dt, valid=mask, **kw)
+    elif route == "setter":
+        f = df.Field(mesh, nvdim=nv, dtype=dt, valid=mask, **kw)
+        f.array = typed
+    elif route == "nodtype":
+        f = df.Field(mesh, nvdim=nv, value=typed, valid=mask, **kw)  # the constructor picks the dtype
+    else:
+        f = df.Field(mesh, nvdim=nv, value=lambda p: typed[mesh.point2index(p)], dtype=dt, valid=mask, **kw)
+    adt = f.array.dtype
+    raw = to64(f.array)
+    _, _, cell = frac_geometry(spec)
+    prec = precision_of(adt, raw, cell, int(np.prod(spec["n"])))
+
+    def mk(values, nvd, msh):
+        return df.Field(msh, nvdim=nvd, value=np.asarray(values).astype(adt), dtype=adt)
+
+    ctx = dict(rel=prec["rel"], mean_rel=prec["mean_rel"], mk=mk, unsigned=adt.kind in "ub", bool=adt.kind == "b",
+               complex=adt.kind == "c")
+    return mesh, raw, f, ctx, prec, route
+
+
+def requests_for(case, rng, dims, tier, with_abs=True):
     nd = len(dims)
     reqs = [dict(op="integrate", dir=None, cumulative=False), dict(op="mean", dir=None)]
     for d in dims:
@@ -583,8 +918,9 @@ def requests_for(case, rng, dims, tier):
     reqs += [dict(op="mean", dir=s) for s in subsets]
     # abs(field): every form of the integral of the absolute value
     da = dims[rng.randrange(nd)]
-    reqs += [dict(op="integrate_abs", dir=None, cumulative=False), dict(op="integrate_abs", dir=da, cumulative=False),
-             dict(op="integrate_abs", dir=da, cumulative=True)]
+    if with_abs:
+        reqs += [dict(op="integrate_abs", dir=None, cumulative=False), dict(op="integrate_abs", dir=da, cumulative=False),
+                 dict(op="integrate_abs", dir=da, cumulative=True)]
     # partial chains (direction by direction, not all directions)
     if nd >= 3:
         p = list(rng.sample(dims, rng.randint(2, nd - 1)))
@@ -622,6 +958,10 @@ def bad_requests(rng, dims):
            dict(op="mean_seq", dirs=[dims[0], dims[0]]),
            dict(op="mean_seq", dirs=list(dims)),
            dict(op="integrate_seq", dirs=list(dims) + [dims[0]])]
+    # near misses of a valid name, containers of the wrong kind, lists holding something that is no name
+    out += [dict(op=o, dir=v, **kw) for o, kw in (("integrate", dict(cumulative=False)), ("integrate", dict(cumulative=True)), ("mean", {}))
+            for v in ("", dims[0] + " ", " " + dims[0], dims[0].upper() if dims[0].upper() not in dims else dims[0] * 2,
+                      [dims[0], 3], [[dims[0]]], [None], {}, {dims[0]: 1}, 0, False)]
     if nd >= 2:
         out += [dict(op="mean", dir=list(dims) + [dims[0]]),
                 dict(op="mean", dir=[dims[1], dims[0], dims[1]]),
@@ -678,7 +1018,14 @@ def run_history(case, rng, obs, fail):
     mesh = build_mesh(spec)
     nv = case["nvdim"]
     arr = fieldio.gen_int_array(rng, (*spec["n"], nv))
-    fields = [df.Field(mesh, nvdim=nv, value=arr, unit=rng.choice([None, "T"]))]
+    dname = case.get("dtype", "float64")
+    if dname == "float64":
+        fields = [df.Field(mesh, nvdim=nv, value=arr, unit=rng.choice([None, "T"]))]
+    else:
+        dt = np_dtype(dname)
+        arr = np.abs(arr) % 2 if dt.kind == "b" else np.abs(arr) if dt.kind == "u" else arr
+        fields = [df.Field(mesh, nvdim=nv, value=arr.astype(dt), dtype=dt, unit=rng.choice([None, "T"]))]
+    obs["tags"].append(f"dtype:{fields[0].array.dtype.name}")
     if case["shared"]:
         fields.append(df.Field(mesh, nvdim=case["nvdim2"], value=fieldio.gen_int_array(rng, (*spec["n"], case["nvdim2"]))))
     obs["stages"] = []
@@ -734,35 +1081,59 @@ def run_impl(case):
     fail = obs["oracle"].append
     if kind == "history":
         return run_history(case, rng, obs, fail)
-    mesh, arr, f = make_field(case, rng)
+    ctx = prec = None
+    if kind in ("dtype", "long"):
+        mesh, arr, f, ctx, prec, route = make_dtype_field(case, rng)
+        obs["prec"] = dict(exact=prec["exact"], rel=Q(Fraction(prec["rel"])),
+                           mean_rel=(None if prec["mean_rel"] is None else Q(Fraction(prec["mean_rel"]))), complex=ctx["complex"])
+        obs["tags"] += [f"dtype:{f.array.dtype.name}", f"route:{route}", f"mag:{case.get('mag')}",
+                        f"regime:{'exact' if prec['exact'] else 'tol'}", f"asked-dtype:{case['dtype']}"]
+    else:
+        mesh, arr, f = make_field(case, rng)
     dims = list(mesh.region.dims)
     nd = len(dims)
-    obs["field"] = fieldio.field_json(f)
+    obs["field"] = fjson(f)
     snap = (f.array.copy(), f.valid.copy())
     tier = case.get("tier", "quick")
     if kind == "bad":
         reqs = bad_requests(rng, dims)
+    elif kind == "long":
+        reqs = stage_requests(dims)
     else:
-        reqs = requests_for(case, rng, dims, tier)
+        reqs = requests_for(case, rng, dims, tier, with_abs=not (ctx and ctx["complex"]))
     fn_form = rng.random() < 0.3
     as_tuple = rng.random() < 0.5
     obs["reqs"] = reqs
-    obs["res"] = [canon_or_err(do_request(f, r, fn_form=fn_form, as_tuple=as_tuple)) for r in reqs]
+    results = [do_request(f, r, fn_form=fn_form, as_tuple=as_tuple) for r in reqs]
+    obs["res"] = [canon_or_err(x) for x in results]
+    if ctx and ctx["complex"]:
+        # complex data: the rational model answers for the real and for the imaginary part (every form is linear)
+        obs["field_im"] = fjson(f, "im")
+        obs["res_im"] = [canon_or_err(x, "im") for x in results]
+    elif kind in ("dtype", "long"):
+        for r, x in zip(reqs, results):
+            if not is_err(x) and not isinstance(x, df.Mesh) and np.iscomplexobj(getattr(x, "array", x)):
+                fail(f"{req_label(r)} of a field with real data has complex values")
     if kind == "field":
         field_oracle(case, f, arr, mesh, rng, fail, exact=True)
     elif kind == "float":
         field_oracle(case, f, arr, mesh, rng, fail, exact=False)
+    elif kind in ("dtype", "long"):
+        field_oracle(case, f, arr, mesh, rng, fail, exact=prec["exact"], light=(kind == "long"), ctx=ctx)
     else:
         # refusals the property names
         for r, res in zip(reqs, obs["res"]):
             if r["op"] == "integrate" and r.get("dir") is None and r["cumulative"] and "err" not in res:
                 fail("integrate(cumulative=True) without a direction was accepted")
-            if r["op"] == "mean" and isinstance(r.get("dir"), list) and len(set(r["dir"])) != len(r["dir"]) and "err" not in res:
+            if (r["op"] == "mean" and isinstance(r.get("dir"), list) and all(isinstance(x, str) for x in r["dir"])
+                    and len(set(r["dir"])) != len(r["dir"]) and "err" not in res):
                 fail(f"mean({r['dir']}) with a duplicate direction was accepted")
     if not (np.array_equal(snap[0], f.array) and np.array_equal(snap[1], f.valid)):
         obs["tags"].append("operand-modified")
     ncell = int(np.prod(case["mesh"]["n"]))
-    obs["tags"] += [f"ndim:{nd}", f"nvdim:{case['nvdim']}", "cells:" + ("1" if ncell == 1 else "<=8" if ncell <= 8 else "<=64" if ncell <= 64 else ">64"),
+    far = max(abs(float(x)) for x in list(case["mesh"]["p1"]) + list(case["mesh"]["p2"])) >= 1000 * max(abs(a - b) for a, b in zip(case["mesh"]["p1"], case["mesh"]["p2"]))
+    obs["tags"] += [f"ndim:{nd}", f"nvdim:{case['nvdim']}", "cells:" + ("1" if ncell == 1 else "<=8" if ncell <= 8 else "<=64" if ncell <= 64 else ">64" if ncell < 1000 else ">=1000"),
+                    f"offset:{'far' if far else 'near'}", f"longest-axis:{'>=1000' if max(case['mesh']['n']) >= 1000 else '<1000'}",
                     f"subs:{len(case['mesh'].get('subs', []))}", f"bc:{'p' if case['mesh'].get('bc') else 'open'}",
                     f"form:{'function' if fn_form else 'method'}"]
     for r, res in zip(reqs, obs["res"]):
@@ -798,7 +1169,10 @@ def model_requests(case, obs):
         st0 = obs["stages"][0][0]
         reqs.append(dict(op="hist", field=st0["field"], steps=[step_json(s) for s in case["steps"][:p]], reqs=st0["reqs"]))
         return reqs
-    return [dict(op="batch", field=obs["field"], reqs=obs["reqs"])]
+    out = [dict(op="batch", field=obs["field"], reqs=obs["reqs"])]
+    if "field_im" in obs:
+        out.append(dict(op="batch", field=obs["field_im"], reqs=obs["reqs"]))
+    return out
 
 
 # ------------------------------------------------------------------ comparison model vs code
@@ -822,7 +1196,7 @@ def cmp_mesh(name, got, mj, dis, exact):
         dis.append(f"{name}: subregions impl {got['subs']} vs model {mj['subs']}")
 
 
-def cmp_vals(name, a, b, dis, mode, scale):
+def cmp_vals(name, a, b, dis, mode, scale, rel=2.0 ** -40):
     if len(a) != len(b):
         dis.append(f"{name}: {len(a)} values impl vs {len(b)} model")
         return
@@ -833,13 +1207,13 @@ def cmp_vals(name, a, b, dis, mode, scale):
         elif mode == "round":
             ok = float(fx) == float(fy)
         else:
-            ok = abs(fx - fy) <= Fraction(2.0 ** -40) * max(scale, abs(fy))
+            ok = abs(fx - fy) <= Fraction(rel) * max(scale, abs(fy))
         if not ok:
             dis.append(f"{name}: value {c}: impl {x} vs model {y} ({mode})")
             return
 
 
-def cmp_res(name, got, resp, dis, mode, scale):
+def cmp_res(name, got, resp, dis, mode, scale, rel=2.0 ** -40):
     if "err" in resp:
         if "err" not in got:
             dis.append(f"{name}: impl returned a result, model rejects ({resp['err']})")
@@ -849,7 +1223,7 @@ def cmp_res(name, got, resp, dis, mode, scale):
         return
     m = resp["ok"]
     if "cell" in resp:  # dV request: [dV, cell...]
-        cmp_vals(name, got["vals"], [m] + list(resp["cell"]), dis, mode, scale)
+        cmp_vals(name, got["vals"], [m] + list(resp["cell"]), dis, mode, scale, rel)
         return
     if "mesh" in got:
         cmp_mesh(name, got["mesh"], m, dis, mode != "tol")
@@ -858,7 +1232,7 @@ def cmp_res(name, got, resp, dis, mode, scale):
         dis.append(f"{name}: impl returns {'an array' if 'vals' in got else 'a field'}, model {'an array' if 'vals' in m else 'a field'}")
         return
     if "vals" in got:
-        cmp_vals(name, got["vals"], m["vals"], dis, mode, scale)
+        cmp_vals(name, got["vals"], m["vals"], dis, mode, scale, rel)
         return
     g, mf = got["field"], m["field"]
     n0 = len(dis)
@@ -881,7 +1255,7 @@ def cmp_res(name, got, resp, dis, mode, scale):
         return
     for k, (ra, rb) in enumerate(zip(g["data"], mf["data"])):
         n1 = len(dis)
-        cmp_vals(f"{name} flat cell {k}", ra, rb, dis, mode, scale)
+        cmp_vals(f"{name} flat cell {k}", ra, rb, dis, mode, scale, rel)
         if len(dis) > n1:
             return
 
@@ -923,6 +1297,8 @@ def compare(case, obs, rs):
                     sc = tot if r["op"] == "mean" else tot * measure_of(st["field"]["mesh"], r)
                 cmp_res(f"after {k} in-place step(s) {case['steps'][:k]}, field {fi}: {req_label(r)}", got, out, dis, mode, sc)
         return dis
+    if case["kind"] in ("dtype", "long"):
+        return compare_dtype(case, obs, rs)
     if "ok" not in rs[0]:
         return [f"model batch failed: {rs[0]}"]
     outs = rs[0]["ok"]
@@ -947,6 +1323,46 @@ def compare(case, obs, rs):
             # scale: sum of |values| x measure of the integrated directions (1 for means)
             sc = tot if r["op"] == "mean" else tot * measure_of(obs["field"]["mesh"], r)
         cmp_res(req_label(r), got, resp, dis, mode, sc)
+    return dis
+
+
+def compare_dtype(case, obs, rs):
+    """fields holding other data than binary64: the values the field actually holds were sent to the model exactly;
+    integrals equal the model (exact regime) or lie within the any-order-summation bound of the data's precision;
+    means: correctly rounded binary64 quotient where numpy divides in binary64 (integer, boolean, binary64 and
+    complex128 data), else within one rounding of the data's precision.  Complex data: the model is asked for the real
+    and for the imaginary part (all forms are linear and act per component), both must agree"""
+    dis = []
+    prec = obs["prec"]
+    exact, rel = prec["exact"], float(F(prec["rel"]))
+    mean_rel = None if prec["mean_rel"] is None else float(F(prec["mean_rel"]))
+    sides = [("", obs["field"], obs["res"])]
+    if "field_im" in obs:
+        sides = [("real part of ", obs["field"], obs["res"]), ("imaginary part of ", obs["field_im"], obs["res_im"])]
+    if len(rs) != len(sides):
+        raise core.MachineryError("dtype batch count mismatch")
+    tot = sum(abs(F(x)) for _, fj, _ in sides for row in fj["data"] for x in row)
+    for (label, fj, res), resp in zip(sides, rs):
+        if "ok" not in resp:
+            dis.append(f"model batch failed: {resp}")
+            continue
+        if len(resp["ok"]) != len(obs["reqs"]):
+            raise core.MachineryError("batch length mismatch")
+        for r, got, out in zip(obs["reqs"], res, resp["ok"]):
+            is_mean = r["op"] in ("mean", "mean_seq")
+            if r["op"] == "dV" and label.startswith("imaginary"):
+                continue  # geometry, not a value of the field
+            if r["op"] == "mean_seq":
+                # one rounding per step of the chain, the first one in the precision of the data
+                mode, sc, rl = "tol", tot, (max(rel, 2.0 ** -40) if (not exact or mean_rel is None) else max(4 * mean_rel, 2.0 ** -40))
+            elif exact and is_mean:
+                mode, sc, rl = ("round", Fraction(0), rel) if mean_rel is None else ("tol", Fraction(0), mean_rel)
+            elif exact:
+                mode, sc, rl = "exact", Fraction(0), rel
+            else:
+                mode, rl = "tol", rel
+                sc = tot if is_mean else tot * measure_of(obs["field"]["mesh"], r)
+            cmp_res(label + req_label(r), got, out, dis, mode, sc, rl)
     return dis
 
 
